@@ -114,8 +114,14 @@ def run_shallow(prog, E=None, rule="R-SHALLOW"):
                 # move idiom: the *source* (a local record) is re-initialised on every path instead - ownership was handed over, not shared
                 src = apath(e[1][3])
                 if src[0] == "l" and not _reinit_missing(prog, E, f, site, src, need):
-                    res.sample({"site": "%s %s: %s" % (short_loc(e[2]), f.name, show(e[1])), "verdict": "move: the local source is re-initialised on every path"})
-                    missing = set()
+                    # ... into a destination that holds nothing: its owning fields were released / initialised on every path to the copy
+                    pending = _reinit_missing(prog, E, f, site, dst, need, before=True)
+                    if not pending:
+                        res.sample({"site": "%s %s: %s" % (short_loc(e[2]), f.name, show(e[1])),
+                                    "verdict": "move: the destination was emptied before, the local source is re-initialised after, on every path"})
+                        missing = set()
+                    else:
+                        missing = pending
             if missing:
                 names = sorted(".".join(x.split("::")[1] for x in fp) for fp in missing)
                 res.violations.append(Violation(rule, "%s|%s copied shallow: %s" % (f.name.replace("mpq_", ""), strip_prefix(rec), ",".join(names)),
@@ -129,8 +135,9 @@ def run_shallow(prog, E=None, rule="R-SHALLOW"):
     return res
 
 
-def _reinit_missing(prog, E, f, site, dst, need):
-    """owning field paths not written (through the destination object) on some path from the copy site to a return"""
+def _reinit_missing(prog, E, f, site, dst, need, before=False):
+    """owning field paths not written (through the destination object) on some path from the copy site to a return;
+    before=True: not written on some path from the function entry to the copy site"""
     dfields = fields_of(dst[2])
 
     def written_by(b, i, e):
@@ -169,6 +176,9 @@ def _reinit_missing(prog, E, f, site, dst, need):
     def xfer(b, i, e, st):
         active, done = st
         if (b["id"], i) == site:
+            if before:
+                missing_at_exit.update(need - set(done))
+                return [(0, frozenset())]
             return [(1, frozenset())]
         if not active:
             return None
@@ -182,10 +192,11 @@ def _reinit_missing(prog, E, f, site, dst, need):
                         nd.add(fp)
             done = frozenset(nd)
         return [(active, done)]
-    fl = Flow(prog, f, [(0, frozenset())], xfer, None).run()
-    for (active, done) in fl.exit_states:
-        if active:
-            missing_at_exit |= (need - set(done))
+    fl = Flow(prog, f, [(1 if before else 0, frozenset())], xfer, None).run()
+    if not before:
+        for (active, done) in fl.exit_states:
+            if active:
+                missing_at_exit |= (need - set(done))
     return missing_at_exit
 
 
